@@ -25,6 +25,12 @@ func runC02(c *Ctx) {
 	R.Rule("C02.R4", "bare elements: in the StartTag and SelfClosingTag arms a tag is written only if an attribute survived or allowNoAttrs(token.Data); allowNoAttrs returns true only across a lookup in the bare-element set or a MatchString of a registered bare-element pattern on its argument")
 	R.Rule("C02.R5", "argument provenance: sanitizeAttrs is called with (token.Data, token.Attr, rules) where rules is the value found in elsAndAttrs[token.Data] or returned by matchRegex(token.Data), and its result is stored back into token.Attr")
 	R.Rule("C02.R7", "each incoming attribute is kept at most once: no path through one iteration of the filter loop appends twice")
+	R.Rule("C02.R9", "the rules merged for one tag are that tag's own (= C01.R3, cited): matchRegex returns a map allocated by the call — merging pattern rules into a map taken from the policy would attach one pattern's attribute rules to other elements for the rest of the policy's life")
+	if mr := c.P.Func(load.ModPath, "(*Policy).matchRegex"); mr != nil {
+		if sc9 := newSC(c, "C02.R9"); sc9 != nil {
+			R.Cite(map[string]string{"C01.R3": "C02.R9"}, func() { c01ReturnedMap(c, sc9, mr) })
+		}
+	}
 	R.Rule("C02.R8", "no two keys of a rule table share one mutable entry: every map stored as a table entry is created by a make that is stored by exactly that one update and lies inside every loop containing the update")
 	sharedEntryRule(c, "C02.R8", attrTables, "an attribute rule registered later for one element is applied to the others too")
 	R.Rule("C02.R6", "isDataAttribute accepts only data-<non-empty>, without upper-case letters or ';', not starting with xml (exact language computation on the three regexps and the Split segmentation)")
